@@ -488,6 +488,17 @@ func (m *Matcher) match(pattern interface{}, fact interface{}, bindings Bindings
 			}
 			binding, found := bs[vv]
 			if found {
+				if s, is := binding.(string); is && m.IsVariable(s) {
+					// A bound value that merely looks like a
+					// variable (a message can carry the string
+					// "?y") is a value.  Using it as a pattern
+					// could lead straight back to the variable it
+					// is bound to, and so on without end.
+					if fs, is := fact.(string); is && fs == s {
+						return []Bindings{bs}, nil
+					}
+					return nil, nil
+				}
 				return m.match(binding, fact, bindings)
 			} else {
 				// add new binding
